@@ -401,8 +401,8 @@ inline void ThreadedIter<DType>::Init(
           consumer_cond_.notify_all();
         }
       } catch (std::exception &e) {
-        // Shouldn't throw exception in destructor
-        DCHECK(producer_sig_.load(std::memory_order_acquire) != kDestroy);
+        // Destroy may already have posted kDestroy: the exception is still recorded,
+        // there is nobody left to wake, the thread just exits (see the branches below)
         {
           std::lock_guard<std::mutex> lock(mutex_exception_);
           if (!iter_exception_) {
